@@ -628,7 +628,7 @@ def replay_history(inputs):
 def bounded_histories(tier, seed):
     import itertools
     import numpy as np
-    L = 4 if tier == 'quick' else 7
+    L = 4 if tier == 'quick' else 6
     st = Stand('C04.histories', f'all single-atom histories of length <= {L} over sites {{-1,0,1,2}} with inner = outer and with every 3rd inner mask, residences 0-3,5; '
                f'plus {40 if tier == "quick" else 1500} random 3-atom histories of 40-400 frames', 'exhaustive short + seeded random vs the definition DJ', exhaustive=True)
     rng = np.random.default_rng(seed + 404)
